@@ -309,7 +309,7 @@ def check_floors(counters, evaluations, tier):
     msgs = []
     for key, frac in (('concurrent-writers', 0.1),
                       ('chunk-larger-than-buffer', 0.12),
-                      ('worker-closed-pipe', 0.13), ('generations', 0.14)):
+                      ('worker-closed-pipe', 0.12), ('generations', 0.13)):
         if counters.get(key, 0) < frac * evaluations:
             msgs.append("%s in only %d of %d cases" % (
                 key, counters.get(key, 0), evaluations))
